@@ -14,9 +14,19 @@
    Inv (per account: non-empty, consecutive, starting at the state nonce, spent = sum of costs
    <= balance) is carried through every history of Add and SetGasTip (including replacements,
    the gapped buffer and its promotion, and the Datacap eviction loop).
-   PARTIAL: Inv is not carried through Reset / Init in Coq; index_store_agree and reopen_reproduces for clean shutdowns are
+   Inv is carried through every history of Add / SetGasTip / Reset / restart (clean or abrupt)
+   of the repaired code, under the explicit guards: transaction nonces are uint64 values, a Reset
+   is chain-consistent and not skipped (at most 64 blocks between the heads, no missing
+   parent); a uint256 overflow of a spent total is an explicit model error (Err 3), not a run.
+   Init establishes Inv from ANY store image (clean shutdown, abrupt stop, arbitrary content).
+   Limbo: finalize deletes exactly the entries at or below the finalised block; push records
+   the including block.  Eviction: drop() removes the last transaction of the heap's first
+   account; the loop ends within the data cap.
+   PARTIAL: the limbo invariant over histories (in limbo iff included in a not yet final block
+   of the current chain), index_store_agree, reopen_reproduces for clean shutdowns (equality of
+   the rebuilt index) and minimality of the evicted account for a freshly built heap are
    checked by correspondence and the Go oracle only. *)
-From GV Require Import Lib.Tactics Pool.Blob Pool.BlobProofs Pool.BlobAddProofs Pool.BlobWitness.
+From GV Require Import Lib.Tactics Pool.Blob Pool.BlobProofs Pool.BlobAddProofs Pool.BlobResetProofs Pool.BlobInitProofs Pool.BlobLimboProofs Pool.BlobLimboReset Pool.BlobWitness Pool.BlobWitness2.
 Local Open Scope N_scope.
 
 (* blob_contiguous, list level: whatever recheck's threshold loop keeps has consecutive nonces
@@ -98,7 +108,7 @@ Print Assumptions C42_inv_through_add_and_tip_histories.
 
 (* ... and a pool without transactions (what Init yields on an empty directory) satisfies it *)
 Theorem C42_inv_of_empty_pool : forall p,
-  p_index p = [] -> p_spent p = [] -> (forall a, bal_of p a < two256) -> Inv p.
+  p_index p = [] -> p_spent p = [] -> Inv p.
 Proof. exact inv_empty. Qed.
 Print Assumptions C42_inv_of_empty_pool.
 
@@ -106,6 +116,85 @@ Theorem C42_set_gas_tip_preserves_inv : forall prioE prioB tip p q,
   Inv p -> set_gas_tip prioE prioB tip p = Ok q -> Inv q.
 Proof. exact set_gas_tip_inv. Qed.
 Print Assumptions C42_set_gas_tip_preserves_inv.
+
+(* recheck (repaired code) on any account whose spent total is the sum of its listed costs:
+   whatever the nonces, order, duplicates, gaps and balance, the account comes out well-formed
+   for the chain state and no other account is touched *)
+Theorem C42_recheck_establishes_account_invariant : forall prioE prioB a incl p q,
+  recheck prioE prioB false a incl p = Ok q -> wf_acct p a -> frame a p q /\ acct_ok q a.
+Proof. exact recheck_ok. Qed.
+Print Assumptions C42_recheck_establishes_account_invariant.
+
+(* Reset (head change with or without reorg: included transactions leave the pool, reorged-out
+   ones are reinjected from the limbo, gaps and overdrafts are dropped) keeps Inv, for both
+   versions of the limbo update, under reset_guard: the reorg is not skipped (at most 64 blocks
+   between the heads, parents present) and accounts without a transaction on either branch keep
+   their nonce and do not lose balance *)
+Theorem C42_reset_preserves_inv : forall prioE prioB nearE nearB ll bs newh final p q,
+  Inv p -> reset_guard bs newh p ->
+  pool_reset prioE prioB nearE nearB false ll bs newh final p = Ok q -> Inv q.
+Proof. exact reset_inv. Qed.
+Print Assumptions C42_reset_preserves_inv.
+
+(* Init on ANY queue / limbo image (clean shutdown, abrupt stop with resurrected entries,
+   arbitrary content), any head state and tip yields a pool satisfying Inv *)
+Theorem C42_init_establishes_inv : forall prioE prioB gtE gtB c qimg limg head tip q,
+  pool_init prioE prioB gtE gtB c false qimg limg head tip = Ok q -> Inv q.
+Proof. exact init_inv. Qed.
+Print Assumptions C42_init_establishes_inv.
+
+(* blob_contiguous + blob_affordable over ALL histories of Add / SetGasTip / Reset / restart
+   (Close+New+Init or Init on a copy of the live directory), under the guards of hguard *)
+Theorem C42_inv_through_all_histories : forall prioE prioB gtE gtB nearE nearB c ll ops p q,
+  Inv p -> hguard prioE prioB gtE gtB nearE nearB c ll ops p ->
+  hrun2 prioE prioB gtE gtB nearE nearB c ll ops p = Ok q -> Inv q.
+Proof. exact hrun2_inv. Qed.
+Print Assumptions C42_inv_through_all_histories.
+
+(* limbo.finalize: groups at or below the finalised number are deleted, groups above it are
+   untouched, and exactly the owners recorded at or below it leave the index *)
+Theorem C42_limbo_finalize_deletes_exactly_final : forall l final l',
+  limbo_finalize l final = Ok l' ->
+  (forall blk, blk <= final -> aget (l_groups l') blk = None) /\
+  (forall blk, final < blk -> aget (l_groups l') blk = aget (l_groups l) blk) /\
+  (forall h, aget (l_index l') h =
+             if existsb (N.eqb h) (finalised_owners (l_groups l) final) then None else aget (l_index l) h).
+Proof. exact limbo_finalize_spec. Qed.
+Print Assumptions C42_limbo_finalize_deletes_exactly_final.
+
+(* finalised entries are deleted: after every Reset (any history, either version of the code) the
+   limbo holds no group at or below the finalised block number *)
+Theorem C42_reset_leaves_nothing_finalised_in_limbo : forall prioE prioB nearE nearB lg ll bs newh final p q,
+  pool_reset prioE prioB nearE nearB lg ll bs newh final p = Ok q ->
+  forall blk, blk <= final -> aget (l_groups (p_limbo q)) blk = None.
+Proof. exact reset_finalises. Qed.
+Print Assumptions C42_reset_leaves_nothing_finalised_in_limbo.
+
+(* limbo.push of an untracked transaction records it under the including block *)
+Theorem C42_limbo_push_records_block : forall l t blk b id,
+  aget (l_index l) (t_id t) = None ->
+  billy_put (l_store l) (t_shelf t) (mkItem t blk) = Some (b, id) ->
+  let l' := limbo_push l t blk in
+  aget (l_index l') (t_id t) = Some id /\
+  (exists g, aget (l_groups l') blk = Some g /\ aget g id = Some (t_id t)) /\
+  billy_get (l_store l') id = billy_get b id.
+Proof. exact limbo_push_spec. Qed.
+Print Assumptions C42_limbo_push_records_block.
+
+(* eviction, the part that holds: drop() removes exactly the last transaction of the heap's
+   first account, and the loop only returns within the data cap *)
+Theorem C42_drop_removes_last_of_heap_top : forall prioE prioB gtE gtB p q,
+  drop prioE prioB gtE gtB p = Ok q ->
+  exists from hr d, p_heap p = from :: hr /\ last_opt (txs_of p from) = Some d /\
+    txs_of q from = removelast (txs_of p from) /\
+    (forall a, a <> from -> aget (p_index q) a = aget (p_index p) a).
+Proof. exact drop_effect. Qed.
+Print Assumptions C42_drop_removes_last_of_heap_top.
+
+Theorem C42_eviction_loop_ends_within_datacap : forall prioE prioB gtE gtB c fuel p q,
+  drop_loop prioE prioB gtE gtB c fuel p = Ok q -> p_stored q <= c_datacap c.
+Proof. exact drop_loop_cap. Qed.
+Print Assumptions C42_eviction_loop_ends_within_datacap.
 
 (* crash cuts: every entry a clean Close leaves on disk is on disk, unchanged, after an abrupt
    stop (Delete never touches the disk: an abrupt stop can only resurrect entries) *)
@@ -172,3 +261,13 @@ Example C42_nonvacuous :
   exists q, drop_loop (fun _ _ => 0%Z) (fun _ _ => 0%Z) (fun a b => b <? a) (fun a b => b <? a)
                       (mkCfg 141376 100) 3 p_ex = Ok q /\ map m_id (txs_of q 0) = [0].
 Proof. split; [exact p_ex_inv | exact p_ex_evicts]. Qed.
+
+(* the guards of the all-histories theorem are met by a concrete history: Add, Reset that mines
+   the transaction (it moves to the limbo), clean restart, Reset by a reorg to a sibling that
+   does not contain it (reinjected from the limbo: it is pooled again) *)
+Example C42_nonvacuous_history :
+  exists p q, winit c2 false (blk2 0) = Ok p /\ Inv p /\
+    hguard wprio wprio wgt wgt wnear wnear c2 false ops_nv p /\
+    hrun2 wprio wprio wgt wgt wnear wnear c2 false ops_nv p = Ok q /\
+    ids_of q 0 = [0].
+Proof. exact history_nonvacuous. Qed.
